@@ -256,6 +256,20 @@ def shard(shard, seed, n, kind):
     return run
 
 
+def shard_enum(shard, nshards, d3stride, offset):
+    """Bounded-exhaustive: every formula with <= 2 connectives / quantifiers (and a slice of those with 3)."""
+    import random
+    from vf import enumterms
+    run = Run(PID)
+    g = G(cfg=QCFG, rnd=random.Random(offset))
+    for idx, t in enumerate(enumterms.bool_quant_terms(d3stride)):
+        if idx % nshards != shard:
+            continue
+        check_formula(run, t, g, {})
+        run.cls("enumerated-connective-combination")
+    return run
+
+
 def main():
     chk = Check(PID, "exploration", RULE, assumptions=[
         "reference evaluator vf/refsem.py; quantifiers evaluated exactly over Bool, BV<=2 and finite sorts only",
@@ -268,7 +282,11 @@ def main():
     for kind, k in (("bool", 7), ("qbf", 4), ("arith", 2), ("toplevel", 3)):
         for s in range(k):
             jobs.append((shard, dict(shard=s, seed=chk.seed, n=per, kind=kind)))
+    for s in range(16):
+        jobs.append((shard_enum, dict(shard=s, nshards=16, d3stride=4 if thorough else 60, offset=chk.seed)))
     chk.add(run_shards(jobs))
+    chk.exhaustive.append("every Boolean formula with at most two connectives / Boolean quantifiers over p, q, (i < j), True "
+                          "(one complex argument per level, every position)")
     for c in ("negation-above-connective", "negated-ite-or-iff", "quantifier-below-connective", "binder-name-clash",
               "toplevel-equality", "ran:qelim-shannon", "ran:qelim-selfsub", "changed:times_distributor",
               "changed:propagate_toplevel", "changed:prenex"):
